@@ -762,3 +762,13 @@ M('sweep-rolllog-refresh-without-rescan', ['C13'], RL, "        self.scan_logfil
 M('sweep-rolllog-vanished-file-listed-anyway', ['C13', 'C14'], RL, "                except FileNotFoundError:  # pruned by the writer between the listing and this look at it\n                    continue\n", "                except FileNotFoundError:  # pruned by the writer between the listing and this look at it\n                    pass\n", ['C13.R8', 'C14.R7'])
 M('zmq-D77-shape-direct-bind', ['C15'], Z, "            attach(pub.bind, pub_addr)\n", "            pub.bind(pub_addr)\n", ['C15.R6'])
 M('zmq-attach-keeps-library-text', ['C15'], Z, "raise zmq.ZMQError(exc.errno, f'{zmq.strerror(exc.errno)} (addr={hide_uri_users_and_pwds(addr)!r})') from None", "raise zmq.ZMQError(exc.errno, f'{exc} (addr={hide_uri_users_and_pwds(addr)!r})') from None", ['C15.R6'])
+# ------------------------------------------------------------------------------------------------------ round 10 seeds and D77 .. shapes
+M('seed10-C01-question-mark-anywhere', ['C01'], Z, "if (ephemeral := addr_connect.endswith('?') + addr_connect.endswith('??')):", "if (ephemeral := min(addr_connect.count('?'), 2)):", ['C01.R16'])
+M('seed10-C02-first-copy-wins', ['C02', 'C01'], Z, "                        elif topic:  # topic == '' is only an informative topics message from the server by this point", "                        elif topic and recvd.get(topic) is None:  # topic == '' is only an informative topics message from the server by this point", ['C02.R14', 'C01.R11'])
+M('seed10-C04-outputs-timeout-default-finite', ['C04'], F, "self.outputs_timeout = float('inf') if (to := config.outputs_timeout) is None else int(to)", "self.outputs_timeout = self.sources_timeout if (to := config.outputs_timeout) is None else int(to)", ['C04.R12'])
+M('seed10-C06-publish-refreshes-t_last', ['C06'], Z, "                clients[full_id] = ZMQSender.Client(client_id, pull, t_last, False, ephemeral, prev_id)", "                clients[full_id] = ZMQSender.Client(client_id, pull, time_ns() // 1_000_000, False, ephemeral, prev_id)", ['C06.R16'])
+M('seed10-C10-decode-anycolor', ['C10', 'C09'], FR, "cv2.IMREAD_COLOR if format != 'GRAY' else 0)) is None:", "(cv2.IMREAD_COLOR if format else cv2.IMREAD_ANYCOLOR) if format != 'GRAY' else 0)) is None:", ['C10.R14', 'C09.R5'])
+M('seed10-C13-seek-timestamp-unit', ['C13', 'C14'], RL, "            seek_timestamp = int(m.group(1)) / 1_000_000\n", "            seek_timestamp = int(m.group(1))\n", ['C13.R14'])
+M('seed10-C15-unquote-before-mask', ['C15'], II, "return self._list_local_images(source.source[7:], source.options)", "return self._list_local_images(unquote(source.source[7:]), source.options)", ['C15.R1'])
+M('seed10-C17-writeback-by-position', ['C17'], UT, "            for topic_xform in res:\n                frames[topic_xform.topic] = topic_xform.frame\n", "            for topic, topic_xform in zip(frames, res):\n                frames[topic] = topic_xform.frame\n", ['C17.R11'])
+M('C16-facet-builder-filters-list-elements', ['C16'], LN, "                data[k] = [float(x) if isinstance(x, (int, float)) else str(x) for x in v]", "                data[k] = [float(x) if isinstance(x, (int, float)) else str(x) for x in v if x]", ['C16.R11'])
